@@ -37,6 +37,8 @@ type Behaviour struct {
 	Standby  bool   `json:"standby"`
 	TimerMay bool   `json:"timerMay"`
 	Order    string `json:"order"`
+	Lazy     bool   `json:"lazy"`     // the caller reaches its select only after the script (gated ctx.Done)
+	ErrResp  bool   `json:"err_resp"` // concretization: an "err" outcome stores a response before returning the error
 	Result   string `json:"result"`
 	Steps    []Step `json:"steps"`
 }
@@ -228,6 +230,16 @@ func (w *worker) Exec(ctx context.Context, qCtx *query_context.Context) error {
 		return nil
 	case "none":
 		return nil
+	case "errresp":
+		// an executable that fails after a response was stored in its context: still a failure
+		r := new(dns.Msg)
+		r.SetReply(qCtx.Q())
+		r.Answer = append(r.Answer, &dns.TXT{
+			Hdr: dns.RR_Header{Name: qCtx.Q().Question[0].Name, Rrtype: dns.TypeTXT, Class: dns.ClassINET, Ttl: 60},
+			Txt: []string{w.tag},
+		})
+		qCtx.SetResponse(r)
+		return errors.New("harness: scripted error after response of " + w.tag)
 	default:
 		return errors.New("harness: scripted error of " + w.tag)
 	}
@@ -251,6 +263,19 @@ func newPlugin(standby bool, thresholdMs int) (interface {
 	}), nil
 }
 
+// lazyCtx delays the caller: its first Done() call (the caller entering its select) blocks until
+// the controller opens the gate.
+type lazyCtx struct {
+	context.Context
+	once sync.Once
+	gate chan struct{}
+}
+
+func (l *lazyCtx) Done() <-chan struct{} {
+	l.once.Do(func() { <-l.gate })
+	return l.Context.Done()
+}
+
 // ---------------------------------------------------------------------------
 
 type runner struct {
@@ -261,6 +286,7 @@ type runner struct {
 	result        string
 	cancel        context.CancelFunc
 	beginReleased bool
+	errResp       bool
 	pending       map[string]string // proc -> outcome noted by PrimFinish/SecFinish but Exec gate not yet released
 	arrivals      map[string][]arrival
 }
@@ -323,6 +349,9 @@ func (r *runner) isParked(proc string) string {
 }
 
 func (r *runner) releaseProc(proc, val string) {
+	if val == "err" && r.errResp {
+		val = "errresp"
+	}
 	r.c.mu.Lock()
 	delete(r.c.parked, proc)
 	r.c.epoch[proc]++
@@ -397,9 +426,16 @@ func runOne(idx int, b *Behaviour, kind string, job *Job, rng *rand.Rand) Result
 		callsMu.Unlock()
 	}()
 
-	ctx, cancel := context.WithCancel(context.Background())
+	ctx0, cancel := context.WithCancel(context.Background())
 	defer cancel()
-	r := &runner{c: c, stepWait: time.Duration(job.StepWaitMs) * time.Millisecond, retCh: make(chan string, 1),
+	var ctx context.Context = ctx0
+	lazyGate := make(chan struct{})
+	openLazy := sync.OnceFunc(func() { close(lazyGate) })
+	defer openLazy()
+	if b.Lazy && kind == "replay" {
+		ctx = &lazyCtx{Context: ctx0, gate: lazyGate}
+	}
+	r := &runner{errResp: b.ErrResp, c: c, stepWait: time.Duration(job.StepWaitMs) * time.Millisecond, retCh: make(chan string, 1),
 		cancel: cancel, pending: map[string]string{}, arrivals: map[string][]arrival{}}
 	res := Result{Idx: idx, Kind: kind, Steered: true, DivergedAt: -1, Expected: b.Result}
 
@@ -550,6 +586,8 @@ func runOne(idx int, b *Behaviour, kind string, job *Job, rng *rand.Rand) Result
 		}
 	}
 
+	// the lazy caller may enter its select now
+	openLazy()
 	// drain: free-run everything that is still parked, give pending outcomes
 	c.setFree()
 	deadline := time.Now().Add(3 * time.Second)
